@@ -72,6 +72,135 @@ var units = []unit{
 	}},
 }
 
+// pointer-code units: straight-line splices over the element/list heap of FunModel/Dll.lean
+type ptrTarget struct{ file, recv, fn string }
+
+var ptrTargets = []ptrTarget{
+	{"dt/list.go", "Element", "uncheckedAppend"},
+	{"dt/list.go", "Element", "uncheckedRemove"},
+}
+
+// field -> (kind of the object the field lives in, kind of the value, setter)
+var ptrFields = map[string][3]string{
+	"next":   {"node", "node", "setNext"},
+	"prev":   {"node", "node", "setPrev"},
+	"list":   {"node", "hdr", "setList"},
+	"length": {"hdr", "int", "addLength"},
+}
+
+type ptrTr struct {
+	fset *token.FileSet
+	b    strings.Builder
+	n    int
+}
+
+// addr emits the binds needed to obtain the address of the object denoted by path and returns it
+func (t *ptrTr) addr(e ast.Expr) string {
+	switch x := e.(type) {
+	case *ast.Ident:
+		return leanIdent(x.Name)
+	case *ast.SelectorExpr:
+		f, ok := ptrFields[x.Sel.Name]
+		if !ok || f[1] == "int" {
+			die(t.fset, e, "unsupported pointer field %s", x.Sel.Name)
+		}
+		base := t.addr(x.X)
+		t.n++
+		v := fmt.Sprintf("a%d", t.n)
+		fmt.Fprintf(&t.b, "  let %s ← (h.node %s).%s\n", v, base, x.Sel.Name)
+		return v
+	}
+	die(t.fset, e, "unsupported path")
+	return ""
+}
+
+// value is the Option-valued content of a pointer expression
+func (t *ptrTr) value(e ast.Expr) string {
+	switch x := e.(type) {
+	case *ast.Ident:
+		if x.Name == "nil" {
+			return "none"
+		}
+		return "(some " + leanIdent(x.Name) + ")"
+	case *ast.SelectorExpr:
+		if f, ok := ptrFields[x.Sel.Name]; ok && f[0] == "node" {
+			return fmt.Sprintf("(h.node %s).%s", t.addr(x.X), x.Sel.Name)
+		}
+	}
+	die(t.fset, e, "unsupported pointer value")
+	return ""
+}
+
+func genPtrUnit(repo string) string {
+	fset := token.NewFileSet()
+	var b strings.Builder
+	b.WriteString("import FunModel.Dll\n\n/-! GENERATED by tools/go2lean from the working tree of tychoish/fun on every run of ./check — do not edit.\n")
+	b.WriteString("    Straight-line pointer code of dt/list.go over the heap of FunModel/Dll.lean: a field write `p.f = q` becomes a\n")
+	b.WriteString("    functional heap update, every dereference a bind in `Option` (`none` = nil-pointer panic). -/\n\n")
+	b.WriteString("namespace FunGen.Dll\nopen FunModel.Dll\n\n")
+	for _, tg := range ptrTargets {
+		f, err := parser.ParseFile(fset, filepath.Join(repo, tg.file), nil, 0)
+		if err != nil {
+			panic(fail{err.Error()})
+		}
+		var fd *ast.FuncDecl
+		for _, d := range f.Decls {
+			if x, ok := d.(*ast.FuncDecl); ok && x.Name.Name == tg.fn && x.Recv != nil {
+				fd = x
+			}
+		}
+		if fd == nil {
+			panic(fail{tg.fn + " not found"})
+		}
+		t := &ptrTr{fset: fset}
+		params := []string{leanIdent(fd.Recv.List[0].Names[0].Name)}
+		for _, p := range fd.Type.Params.List {
+			for _, n := range p.Names {
+				params = append(params, leanIdent(n.Name))
+			}
+		}
+		if fd.Type.Results != nil {
+			die(fset, fd, "results are not supported in pointer units")
+		}
+		for _, st := range fd.Body.List {
+			switch x := st.(type) {
+			case *ast.IncDecStmt:
+				sel, ok := x.X.(*ast.SelectorExpr)
+				if !ok || ptrFields[sel.Sel.Name][1] != "int" {
+					die(fset, st, "unsupported ++/--")
+				}
+				d := "1"
+				if x.Tok == token.DEC {
+					d = "(-1)"
+				}
+				a := t.addr(sel.X)
+				fmt.Fprintf(&t.b, "  let h := h.%s %s %s\n", ptrFields[sel.Sel.Name][2], a, d)
+			case *ast.AssignStmt:
+				if x.Tok != token.ASSIGN || len(x.Lhs) != 1 {
+					die(fset, st, "unsupported assignment")
+				}
+				sel, ok := x.Lhs[0].(*ast.SelectorExpr)
+				if !ok {
+					die(fset, st, "unsupported assignment target")
+				}
+				fl, ok := ptrFields[sel.Sel.Name]
+				if !ok || fl[1] == "int" {
+					die(fset, st, "unsupported field %s", sel.Sel.Name)
+				}
+				a := t.addr(sel.X)
+				v := t.value(x.Rhs[0])
+				fmt.Fprintf(&t.b, "  let h := h.%s %s %s\n", fl[2], a, v)
+			default:
+				die(fset, st, "unsupported statement %T", st)
+			}
+		}
+		fmt.Fprintf(&b, "/-- generated from %s `%s.%s` -/\ndef %s (h : Heap) (%s : Nat) : Option Heap := do\n%s  pure h\n\n",
+			tg.file, tg.recv, tg.fn, tg.fn, strings.Join(params, " "), t.b.String())
+	}
+	b.WriteString("end FunGen.Dll\n")
+	return b.String()
+}
+
 type fail struct{ msg string }
 
 func die(fset *token.FileSet, n ast.Node, f string, a ...any) {
@@ -479,6 +608,26 @@ func main() {
 	out := flag.String("out", "", "output directory (lean/FunGen)")
 	flag.Parse()
 	os.MkdirAll(*out, 0o755)
+	{
+		text := func() (text string) {
+			defer func() {
+				if r := recover(); r != nil {
+					f, ok := r.(fail)
+					if !ok {
+						panic(r)
+					}
+					fmt.Fprintln(os.Stderr, "go2lean: cannot translate:", f.msg)
+					text = "/-! GENERATED by tools/go2lean — the current source is outside the translatable subset: " +
+						strings.ReplaceAll(f.msg, "-/", "- /") + " -/\n#check (go2lean_could_not_translate_the_current_source : Nat)\nexample : False := by decide\n"
+				}
+			}()
+			return genPtrUnit(*repo)
+		}()
+		path := filepath.Join(*out, "Dll.lean")
+		if old, err := os.ReadFile(path); err != nil || string(old) != text {
+			os.WriteFile(path, []byte(text), 0o644)
+		}
+	}
 	for _, u := range units {
 		text := safeGen(*repo, u)
 		path := filepath.Join(*out, u.out)
